@@ -29,6 +29,8 @@ func main() {
 		runAccum(*seed, *n, *dir)
 	case "clmath":
 		runCLMath(*seed, *n, *dir)
+	case "gammmath":
+		runGammMath(*seed, *n, *dir)
 	case "sumtree":
 		runSumTree(*seed, *n, *dir)
 	default:
